@@ -126,6 +126,8 @@ func init() {
 		"(*sync.Once).Do":                                    stubOnceDo,
 		"(*sync.Pool).Get":                                   stubPoolGet,
 		"(*sync.Pool).Put":                                   stubNop,
+		"internal/stringslite.Clone":                         func(fr *frame, a []value) value { return a[0] },
+		"strings.Clone":                                      func(fr *frame, a []value) value { return a[0] },
 		"internal/bytealg.IndexByte":                         extIndexByte,
 		"internal/bytealg.IndexByteString":                   extIndexByteString,
 		"internal/bytealg.Equal":                             extBytesEqual,
